@@ -139,18 +139,19 @@ class Sampler:
         r = self.r
         members = flat_members(comp)
         vals = []
-        # choices: pick one branch per choice group for schema validity
-        chosen = {}
-        for m in members:
-            if m["position"] == "choice":
-                g = self._choice_group(m)
-                chosen.setdefault(id(g), []).append(m)
-        pick = {gid: r.choice(ms) for gid, ms in chosen.items()}
+        # choices: pick one branch (a leaf or a nested group) per choice group, for schema validity
+        paths = {id(m["item"]): self._choice_path(m) for m in members if m["kind"] != "attribute"}
+        pick = {}
+        for pth in paths.values():
+            for ch, idx in pth:
+                if id(ch) not in pick:
+                    pick[id(ch)] = r.randrange(len(ch.items))
         for m in members:
             it = m["item"]
             attr = m["kind"] == "attribute"
-            in_choice = m["position"] == "choice"
-            if in_choice and pick[id(self._choice_group(m))] is not m:
+            pth = paths.get(id(it), [])
+            in_choice = bool(pth)
+            if any(pick[id(ch)] != idx for ch, idx in pth):
                 vals.append([] if m["repeated"] else None)
                 continue
             sub = "rand" if mode in ("full", "many", "min", "rand") else mode
@@ -165,6 +166,27 @@ class Sampler:
             else:
                 vals.append(self.leaf(m, sub))
         return ("c", comp, vals)
+
+    @staticmethod
+    def _choice_path(m):
+        """[(choice group, index of the branch that leads to m's item)] from the content root down to the item."""
+        from .model import Group
+        it = m["item"]
+
+        def path(g, acc):
+            for i, x in enumerate(g.items):
+                step = acc + ([(g, i)] if g.kind == "choice" else [])
+                if x is it:
+                    return step
+                if isinstance(x, Group):
+                    p = path(x, step)
+                    if p is not None:
+                        return p
+            return None
+        content = m["owner"].content
+        if content is None or content.group is None:
+            return []
+        return path(content.group, []) or []
 
     @staticmethod
     def _cap(m):
